@@ -33,8 +33,7 @@ def witness_replay(entry):
 def run(ctx: Ctx) -> int:
     return ec.run_prop(ctx, "theories/Props/C10.v", ec.ASSUME_COMMON + [
         "'views never raise' is totality of Python code: tested on every reachable state visited, not proved",
-        "key-down skills: valid->accepted is proved under the invariant kd_inv, which holds when the applied cooldown is at least the "
-        "maximum key-down time; the shipped cooldown-free key-down skill violates that condition (known finding)"],
+        "key-down skills: modelled with the repaired validity (fix de960db), valid->accepted proved for all states"],
         known_match, witness_replay, RULE)
 
 
